@@ -189,7 +189,7 @@ func cmdSnip(fs *flag.FlagSet) {
 	out := fs.String("out", "snip", "output prefix")
 	fs.Int64("seed", 1, "seed")
 	fs.Parse(os.Args[2:])
-	startWatchdog(10 * time.Second)
+	startWatchdog(60 * time.Second)
 	wt := newWatch()
 	f, err := os.Open(*in)
 	if err != nil {
@@ -279,7 +279,7 @@ func cmdPop(fs *flag.FlagSet) {
 	out := fs.String("out", "pop", "output prefix")
 	fs.Int64("seed", 1, "seed")
 	fs.Parse(os.Args[2:])
-	startWatchdog(20 * time.Second)
+	startWatchdog(60 * time.Second)
 	wt := newWatch()
 	tw := newTraceWriter(*out + ".000.ndjson")
 	defer tw.Close()
